@@ -256,7 +256,13 @@ impl Accept for UnixListener {
 
     fn poll_accept(self: Pin<&mut Self>, cx: &mut Context<'_>) -> Poll<io::Result<Self::Conn>> {
         UnixListener::poll_accept(self.get_mut(), cx).map(|res| {
-            res.and_then(|(stream, remote)| Ok(UnixStream::new(stream, Some(remote.try_into()?))))
+            res.map(|(stream, remote)| {
+                // The peer address is informational. A client whose own end is bound to a
+                // pathname that is not valid UTF-8 is still a perfectly good connection:
+                // failing here would be reported as an accept error and end the server.
+                let remote = UnixAddr::try_from(remote).unwrap_or_else(|_| UnixAddr::unnamed());
+                UnixStream::new(stream, Some(remote))
+            })
         })
     }
 }
